@@ -15,7 +15,7 @@ verify)
   pkg="."
   (cd "$wt" && timeout 600 go test -vet=off -count=1 -run 'TestDemo' $pkg > "$wt/.demo0.log" 2>&1); d0=$?
   rm "$wt/zz_demo_test.go"
-  (cd "$wt" && git apply "$dir/patch.diff") || { echo "VERIFY patch does not apply"; exit 1; }
+  (cd "$wt" && git apply --recount "$dir/patch.diff") || { echo "VERIFY patch does not apply"; exit 1; }
   (cd "$wt" && go build ./... && go build -tags verif ./...) > "$wt/.build.log" 2>&1; b=$?
   (cd "$wt" && timeout 900 go test -vet=off -count=1 ./... > "$wt/.suite.log" 2>&1); s=$?
   cp "$dir/zz_demo_test.go" "$wt/"
@@ -26,7 +26,7 @@ verify)
   exit 1;;
 detect)
   if [ -n "$(git -C /repo status --porcelain)" ]; then echo "/repo is not clean"; exit 2; fi
-  git -C /repo apply "$dir/patch.diff" || exit 2
+  git -C /repo apply --recount "$dir/patch.diff" || exit 2
   for p in "$@"; do
     out="$(/verif/efcheck "$p" --tier quick 2>&1)"; rc=$?
     echo "DETECT $(basename $(dirname $dir))/$(basename $dir) $p exit=$rc $(echo "$out" | grep -c '^VIOLATION') violation lines"
